@@ -114,7 +114,7 @@ Definition volume_list (s : fsys) (v : view) : ores :=
 Definition on_view_o (w : world) (vi : nat) (k : view -> world * ores) : world * ores :=
   match nth_error (w_views w) vi with Some v => k v | None => (w, ORes RBadIndex) end.
 
-Definition ostep (w : world) (c : ocall) : world * ores :=
+Definition vstep (w : world) (c : ocall) : world * ores :=
   match c with
   | OCall c => let '(w1, r) := wstep w c in (w1, ORes r)
   | OVolumeAdd vi p => on_view_o w vi (fun v => let '(s1, r) := volume_add (w_fs w) v p in (with_fs w s1, r))
@@ -122,12 +122,12 @@ Definition ostep (w : world) (c : ocall) : world * ores :=
   | OVolumeList vi => on_view_o w vi (fun v => (w, volume_list (w_fs w) v))
   end.
 
-Fixpoint orun (w : world) (cs : list ocall) : world * list ores :=
+Fixpoint vrun (w : world) (cs : list ocall) : world * list ores :=
   match cs with
   | [] => (w, [])
   | c :: cs' =>
-      let '(w1, r) := ostep w c in
-      let '(w2, rs) := orun w1 cs' in
+      let '(w1, r) := vstep w c in
+      let '(w2, rs) := vrun w1 cs' in
       (w2, r :: rs)
   end.
 
